@@ -60,6 +60,20 @@ def check_series(case):
     def fresh():
         return [tm.build_series(m) for m in models]
 
+    def shared():
+        # series over the same days share ONE index object (as z = x * 2 or pd.Series(values, idx) built from one idx do)
+        idx = {}
+        res = []
+        for m in models:
+            s_ = tm.build_series(m)
+            key = tuple(sorted(m))
+            if key in idx:
+                s_.index = idx[key]
+            else:
+                idx[key] = s_.index
+            res.append(s_)
+        return res
+
     hows = [('ij', None), ('oj', None), ('lj', None), ('rj', None), ('inner', None), ('outer', None)] + [('explicit', e) for e in _explicit_sets(T)]
     f2 = presync(lambda a, b: (a, b))
     f3 = presync(lambda a, b, c: (a, b, c))
@@ -78,6 +92,19 @@ def check_series(case):
                     out.viol('wrong-index', 'df_index(%s, %r) = %s expected days %s' % (desc, how, [tm.daynum(t) for t in idx], days), how=how, f='df_index')
             except Exception as e:
                 out.viol('raised', 'df_index(%s, %r) raised %s: %s' % (desc, how, type(e).__name__, e), how=how, f='df_index')
+        if ex is None and len(set(map(frozenset, daysets))) < k:
+            out.sub()
+            ss = shared()
+            try:
+                idx = df_index(ss, how)
+                res = df_sync(ss, how)
+                out.call(2)
+                if list(idx) != [tm.day(d) for d in days]:
+                    out.viol('wrong-index', 'df_index(%s with shared index objects, %r) = %s expected days %s' % (desc, how, [tm.daynum(t) for t in idx], days), how=how, f='df_index-shared')
+                else:
+                    _check_seq_result(out, res, models, days, None, 'df_sync(%s with shared index objects, %s)' % (desc, how), dict(f='df_sync-shared', how=how, k=k))
+            except Exception as e:
+                out.viol('raised', 'df_index/df_sync(%s with shared index objects, %r) raised %s: %s' % (desc, how, type(e).__name__, e), how=how, f='df_index-shared')
         for method in METHODS:
             sig = dict(how=jname, method=str(method), k=k)
             # ---- df_sync on a list
